@@ -1,4 +1,5 @@
 import MirVerif.Lemmas.Dataflow
+import MirVerif.Props.C19.Bitmap
 /-!
 # C19 — consequence of the exact change flags: `solve_dataflow` stops only at a solution
 
@@ -13,6 +14,10 @@ in/out sets and the visiting trace with `mirdrv_c19d`).
   worklist becomes empty every block satisfies `in = con (out of predecessors)` and `out = f (in)`.
 * `solve_needs_exact_flags`: with a flag that under-reports one change (the shape of the defect
   repaired by fde4fbaa) the solver stops at a state that violates an equation.
+* `bitmap_flag_never_under_reports` / `bitmap_flag_never_over_reports`: the flag returned by the bitmap model's
+  op2/op3 (any operation function, heap and aliasing) is the exact set-level flag, i.e. the generator's
+  bitmap callbacks meet `Exact`.
+* `solve_fuel_irrelevant`: the result does not depend on the fuel.
 * Not proved: termination (needs monotonicity and finite height of the caller's lattice); the
   theorem is stated for any fuel that suffices.
 A backward problem is the same function with `preds`/`succs` exchanged (the C code exchanges the edge
@@ -30,6 +35,27 @@ theorem solve_fixpoint {V : Type} (P : Problem V) (hx : Exact P)
   · intro c hc
     have hm : c ∈ List.range P.n := List.mem_range.mpr hc
     exact ⟨Or.inr ⟨rfl, hm⟩, Or.inr (Or.inl ⟨rfl, hm⟩)⟩
+
+/-- the answer does not depend on the fuel: any larger fuel gives the same final state (so the model's
+    fuel is only a device for totality; the C loop has none) -/
+theorem loop_fuel_mono {V : Type} (P : Problem V) (sort : List Nat → List Nat) :
+    ∀ (k : Nat) (first : Bool) (σ : St V) (w : List Nat) (σ' : St V),
+      loop P sort k first σ w = some σ' → loop P sort (k + 1) first σ w = some σ' := by
+  intro k
+  induction k with
+  | zero => intro first σ w σ' h; simp [loop] at h
+  | succ k ih =>
+    intro first σ w σ' h
+    rw [loop] at h ⊢
+    by_cases hw : w = []
+    · rw [if_pos hw] at h ⊢; exact h
+    · rw [if_neg hw] at h ⊢; exact ih _ _ _ _ h
+
+theorem solve_fuel_irrelevant {V : Type} (P : Problem V) (sort : List Nat → List Nat) (k m : Nat)
+    (σ0 σ' : St V) (h : solve P sort k σ0 = some σ') : solve P sort (k + m) σ0 = some σ' := by
+  induction m with
+  | zero => exact h
+  | succ m ih => exact loop_fuel_mono P sort (k + m) true σ0 _ σ' ih
 
 /-! Non-vacuity: reaching-definitions style problem over bit masks on the CFG
     0 → 1 → 2 → 1 (loop), 2 → 3: the solver needs three passes and returns the least solution. -/
@@ -83,5 +109,36 @@ theorem solve_needs_exact_flags :
         some false := by decide +kernel
     rw [hσ] at h1
     simpa using h1
+
+/-! ## the generator's flags meet `Exact`
+
+The confluence and transfer functions of the generator's bitmap problems (liveness, availability,
+dominators) are single `bitmap_ior`/`bitmap_and`/`bitmap_ior_and`/`bitmap_ior_and_compl` calls whose
+return value is handed to `solve_dataflow`.  At the level of sets (`V := Nat → Bool`, the denotation
+`mem` of a bitmap) the flag such a call returns is *the* exact flag `new ≠ old`, for every operation
+function, every heap of bitmaps and every aliasing of the operands — this is `bitmap_op_changed`
+re-read as the hypothesis of `solve_fixpoint`. -/
+open MirVerif.Bitmap in
+theorem bitmap_flag_never_under_reports (f : List Word → Word) (h : Heap) (d : Nat) (hd : d < h.length)
+    (srcs : List Nat)
+    (hne : (fun i => mem (hget (opH flagFix f h d srcs).1 d) i) ≠ (fun i => mem (hget h d) i)) :
+    (opH flagFix f h d srcs).2 = true := by
+  apply (MirVerif.C19.bitmap_op_changed f h d hd srcs).mpr
+  apply Classical.byContradiction
+  intro hc
+  apply hne
+  funext i
+  apply Classical.byContradiction
+  intro hi
+  exact hc ⟨i, hi⟩
+
+open MirVerif.Bitmap in
+/-- and never over-reports (not needed for `solve_fixpoint`; it bounds the work) -/
+theorem bitmap_flag_never_over_reports (f : List Word → Word) (h : Heap) (d : Nat) (hd : d < h.length)
+    (srcs : List Nat) (hfl : (opH flagFix f h d srcs).2 = true) :
+    (fun i => mem (hget (opH flagFix f h d srcs).1 d) i) ≠ (fun i => mem (hget h d) i) := by
+  obtain ⟨i, hi⟩ := (MirVerif.C19.bitmap_op_changed f h d hd srcs).mp hfl
+  intro heq
+  exact hi (congrFun heq i)
 
 end MirVerif.Dataflow
